@@ -8,6 +8,10 @@ Protocol (one op per line, all numbers non-negative decimal integers; see lean/O
   loud id utf8|ascii|closed|none   (store.silent = False and the process console becomes a strict UTF-8 stream / an ASCII
                                     stream / a closed stream; none: silent = True again)
   label <hex code points>          (the `operation` text passed to the following consume calls; default "op")
+  race k <call A> / <call B>       (two overlapping calls: A is preempted just before its k-th acquisition of a store lock and B
+                                    runs to completion there - B wins the race for the lock; calls are consume/regen/transfer/
+                                    convert/dorm/wake lines; observation `<ret A> <ret B> | <every store>`)
+Numbers may be of any size (Python ints are unbounded): the "huge" configurations lie beyond the range of a C double.
 Observation: `<ret> | <store>[ | <store>] | cb [id:state,...]`,
 <store> = atp gtp nadh debt consumed regenerated ops failed ntx state maxAtp maxGtp maxNadh.
 """
@@ -15,6 +19,7 @@ from __future__ import annotations
 
 import itertools
 import sys
+import threading
 from fractions import Fraction
 
 from ..core import Infra, LEAN, REPO, Prop, Violation, import_repo, run_model, unhexs, write_if_changed
@@ -27,6 +32,19 @@ INFLOW = ("regen", "rst", "tick")
 REGEN_RATES = [(1, 1), (2, 1), (5, 1), (5, 2), (1, 2), (7, 1), (3, 4)]
 STATES = ["normal", "conserving", "starving", "feasting", "dormant"]
 EXC = [RuntimeError, ValueError, KeyError]
+H310, P1030 = 10 ** 310, 2 ** 1030           # beyond the range of a C double (about 1.8e308 = 2**1024)
+HUGE = [H310, H310, P1030, 10 ** 400 + 7, 2 ** 1100, 10 ** 30, 2 ** 80 + 1]
+RACE_CALLS = ("consume", "regen", "transfer", "convert", "dorm", "wake", "interest", "rst")
+FLOAT_MAX = 1.7976931348623157e308
+
+
+def _quot(a, b):
+    """a / b as the store computes its fill level: a quotient beyond the float range saturates (harness-side copy, used only
+    for the Float self-check of the driver)"""
+    try:
+        return a / b
+    except OverflowError:
+        return FLOAT_MAX
 
 
 class _Observer:
@@ -84,7 +102,7 @@ class C04(Prop):
         + ["consume:topup:atp", "consume:topup-short>debt:atp", "consume:topup-short>refused:atp",
            "regen:pay", "regen:nopay", "regen:clamp", "regen:fit", "transfer:ok", "transfer:short", "transfer:self",
            "convert:pos", "convert:zero", "convert:neg", "dorm", "wake", "interest:pos", "interest:zero", "rst",
-           "cb:called", "cb:raised", "tick:pass", "tick:noloop"])
+           "cb:called", "cb:raised", "tick:pass", "tick:noloop", "race"])
     assumptions = [
         "amounts, costs, priorities and configuration values are non-negative Python ints (the property's quantifier)",
         "silent=True; the background thread of a store with regeneration_rate > 0 is captured, not started: single passes of "
@@ -96,7 +114,11 @@ class C04(Prop):
         "the metabolic-state classifier is opaque in every theorem; the driver computes it with IEEE doubles exactly "
         "as _update_state does (threshold bit patterns and a boundary grid are compared at start-up; on any mismatch "
         "the harness truncates histories at float-sensitive points instead of comparing them)",
-        "single-threaded histories (interleavings are C05)",
+        "histories are sequential (interleavings at source-line granularity are C05); the `race` lines add the overlaps in which "
+        "one call runs to completion while the other is parked at a lock acquisition (search + correspondence; the theorems for "
+        "interleavings are C05's)",
+        "quantities of any size: configurations beyond the range of a C double are generated (huge axis); an `interest` op is only "
+        "generated where int(debt * rate) is the exact floor (checked on the live store when the history is drawn)",
     ]
     trusted_modelled = ["modelled, not verified: ATP_Store's methods as Operon.Atp.consume/regenerate/withdraw/deposit/"
                         "convert/enterDormancy/exitDormancy/applyInterest/reset (Operon/Model/Atp.lean)"]
@@ -144,6 +166,15 @@ class C04(Prop):
                         grid.append((cur, cap, debt))
         for debt in (0, 1, 5):
             grid.append((0, 0, debt))
+        # beyond 2**53 (true division of ints is correctly rounded from the exact quotient) and beyond the float range
+        # (2**1024 - 2**970 is the first quotient that no longer rounds to a finite double: saturation)
+        edge = 2 ** 1024 - 2 ** 970
+        for cur, cap, debt in [(2 ** 53 + 1, 3, 0), (2 ** 53 + 3, 2 ** 54, 1), (10 ** 30 + 1, 3 * 10 ** 30, 10 ** 29), (H310, H310, 0),
+                               (H310, 10 ** 309, 0), (H310, 1, 0), (1, 1, H310), (H310, H310, H310), (H310, 3 * H310, H310 // 7),
+                               (9 * H310, 10 * H310, 0), (9 * H310 - 1, 10 * H310, 0), (3 * H310, 10 * H310, 0), (H310, 1, H310),
+                               (H310, 1, 3 * H310), (edge, 1, 0), (edge - 1, 1, 0), (edge + 1, 1, 0), (1, 1, edge), (1, 1, 2 * edge - 1),
+                               (P1030, 1, P1030), (5, 10 ** 400, 0), (3 * P1030 + 1, 10 * P1030, 1), (0, H310, H310 // 5)]:
+            grid.append((cur, cap, debt))
         try:
             out = run_model(self.id, ["reset"] + [f"fcheck {c} {k} {d}" for (c, k, d) in grid])[1:]
         except Infra:
@@ -171,9 +202,9 @@ class C04(Prop):
         if facts is None:
             return "?"
         w, chain, other = facts
-        ratio = 0.0 if cap == 0 else cur / cap
+        ratio = 0.0 if cap == 0 else _quot(cur, cap)
         if debt > 0 and cap > 0:
-            ratio -= (debt / cap) * (w.numerator / w.denominator)
+            ratio -= _quot(debt, cap) * (w.numerator / w.denominator)
         for op, thr, st in chain:
             t = thr.numerator / thr.denominator
             if {"le": ratio <= t, "lt": ratio < t, "ge": ratio >= t, "gt": ratio > t}[op]:
@@ -201,7 +232,12 @@ class C04(Prop):
         return getattr(s, name)
 
     # --- generation ---------------------------------------------------------------------------------------
-    def _new_line(self, rng, big=False):
+    def _new_line(self, rng, big=False, huge=False):
+        if huge:     # budgets / reserves / debt limits beyond the range of a C double, also next to tiny capacities
+            b = rng.choice(HUGE)
+            rn, rd = rng.choice([(0, 1), (1, 2), (1, 4), (1, 1), (1, 2)])
+            return (f"new {rng.choice([b, b, b // 3, 1, 0])} {rng.choice([0, 0, b // 3, b])} {rng.choice([0, 0, b, b // 7])} "
+                    f"{rng.choice([0, b, b, b // 2, 2 * b])} {rn} {rd}")
         if big:
             b = rng.choice([10 ** 6, 10 ** 9, 3 * 10 ** 8 + 7])
             return f"new {b} {rng.choice([0, b // 3])} {rng.choice([0, b // 7])} {rng.choice([0, b // 2, b])} 1 10"
@@ -233,6 +269,14 @@ class C04(Prop):
             return None, []
         if op == "label":
             self._label = unhexs(t[1])
+            return None, []
+        if op == "race":          # generation-time shadow only (run_impl goes through _race): B, then A
+            a_line, b_line = line.split(" ", 2)[2].split(" / ")
+            for l in (b_line, a_line):
+                try:
+                    self._apply(stores, l)
+                except Exception:  # noqa
+                    pass
             return None, []
         if op == "loud":
             stores[int(t[1])].silent = t[2] == "none"
@@ -266,7 +310,25 @@ class C04(Prop):
                  b + max(self._pub(s, "max_debt") - s.get_debt(), 0), b + max(self._pub(s, "max_debt") - s.get_debt(), 0) + 1,
                  b + self._pub(s, "nadh") + max(self._pub(s, "max_debt") - s.get_debt(), 0), b + self._pub(s, "nadh") + max(self._pub(s, "max_debt") - s.get_debt(), 0) + 1,
                  self._pub(s, "max_atp") + 1]
+        md = self._pub(s, "max_debt")
+        if max(md, self._pub(s, "max_atp"), self._pub(s, "max_nadh"), b) > 10 ** 18:
+            cands += [md // 10, md // 2, md, b + md // 10, b + md // 2, self._pub(s, "max_atp") // 3, 10 * max(md, b) + 1]
         return max(0, rng.choice(cands))
+
+    def _interest_exact(self, s) -> bool:
+        """is int(debt * rate) - as the store computes it - the exact floor of debt * (the rational the protocol line gave)?
+        (a float product rounds for debts beyond 2**53; where it leaves the float range the store computes exactly)"""
+        d = s.get_debt()
+        if d <= 0:
+            return True
+        r = s.debt_interest
+        q = Fraction(r).limit_denominator(1000)
+        try:
+            real = int(d * r)
+        except OverflowError:
+            n_, m_ = float(r).as_integer_ratio()
+            real = d * n_ // m_
+        return real == d * q.numerator // q.denominator
 
     def generate(self, rng, tier, n):
         produced = 0
@@ -274,7 +336,8 @@ class C04(Prop):
             produced += 1
             kind = rng.random()
             big = kind > 0.97
-            lines = [self._new_line(rng, big), self._new_line(rng, big)]
+            huge = 0.92 < kind <= 0.97
+            lines = [self._new_line(rng, big, huge), self._new_line(rng, big, huge and rng.random() < 0.7)]
             stores = [self._mk(lines[0]), self._mk(lines[1])]
             no_inflow = rng.random() < 0.4
             with_obs = rng.random() < 0.3
@@ -299,6 +362,23 @@ class C04(Prop):
                 if rng.random() < 0.6:
                     lines.append("label " + rng.choice(["d800", "-", "e9.2603", "6f.70.dfff", "1f600"]))
             mix = ["consume"] * 6 + ["transfer"] * 2 + ["convert", "dorm", "wake", "interest", "interest"]
+            quiet = not with_obs and not any(l.startswith("loud") for l in lines)
+            if quiet and rng.random() < 0.35:
+                mix += ["race"] * 2
+
+            def call_line(i, s, inflow_ok):
+                """a call for one side of a race"""
+                op = rng.choice(["consume"] * 4 + ["transfer"] * 3 + ["convert"] + (["regen"] * 2 if inflow_ok else []))
+                if op == "consume":
+                    cur = rng.choice(["atp", "atp", "gtp", "nadh"])
+                    return f"consume {i} {self._amount(rng, s, cur)} {cur} {int(rng.random() < 0.5)} {rng.choice([0, 5, 10, 10])}"
+                if op == "transfer":
+                    cur = rng.choice(["atp", "atp", "gtp", "nadh"])
+                    b = s.get_balance(self.cur[cur])
+                    return f"transfer {i} {rng.randrange(len(stores))} {rng.choice([0, 1, 2, b, b, max(b - 1, 0), b // 2 + 1])} {cur}"
+                if op == "convert":
+                    return f"convert {i} {rng.choice([0, 1, 2, self._pub(s, 'nadh')])}"
+                return f"regen {i} {rng.choice([0, 1, 5, s.get_debt(), s.get_debt() + 3])} {rng.choice(['atp', 'atp', 'gtp'])}"
             if not no_inflow:
                 mix += ["regen"] * 3 + ["rst"]
                 if any(l.startswith("newr") for l in lines):
@@ -336,6 +416,11 @@ class C04(Prop):
                 elif op == "tick":
                     with_loop = [k_ for k_, s_ in enumerate(stores) if self.bg.has_loop(s_)]
                     line = f"tick {rng.choice(with_loop) if with_loop and rng.random() < 0.9 else i}"
+                elif op == "race":
+                    j = rng.choice([i, i, rng.randrange(len(stores))])
+                    line = f"race {rng.choice([1, 1, 2])} {call_line(i, s, not no_inflow)} / {call_line(j, stores[j], not no_inflow)}"
+                elif op == "interest" and not self._interest_exact(s):
+                    line = f"wake {i}"
                 elif op == "new" or (op == "dorm" and rng.random() < 0.03 and len(stores) < 4):
                     line = self._new_line(rng)
                 elif with_obs and op == "wake" and rng.random() < 0.3:
@@ -353,9 +438,12 @@ class C04(Prop):
                                   "regen 0 1 xyz", "transfer 0 7 1 atp", "consume 0 1 atp", "rst", "new 1 2 3",
                                   "convert 0 1.5", "interest 12", "obs 0 nth x 0", "obs 5 always 0", "obs 0 state purple 0",
                                   "obs 0", "tick", "tick 7", "tick x", "newr 1 2 3 4 1 10 1 0", "newr 1 2 3 4 1 10 1",
-                                  "loud 0 latin1", "loud 9 ascii", "loud 0", "label", "label zz", "label 110000"])
+                                  "loud 0 latin1", "loud 9 ascii", "loud 0", "label", "label zz", "label 110000",
+                                  "race 1 consume 0 1 atp 0 0", "race 0 dorm 0 / wake 0", "race x dorm 0 / wake 0",
+                                  "race 1 dorm 0 / tick 0", "race 1 dorm 0 / wake 9", "race 2 bogus / wake 0"])
                 lines.insert(rng.randrange(2, len(lines) + 1), bad)
             yield {"lines": lines, "note": "random" + (" no-inflow" if no_inflow else "") + (" big" if big else "")
+                   + (" huge" if huge else "")
                    + (" observers" if with_obs else "")}
 
     def exhaustive(self, tier):
@@ -399,8 +487,42 @@ class C04(Prop):
             for k in range(1, depth + 1):
                 for ops in itertools.product(ralpha, repeat=k):
                     rcases.append({"lines": list(cfg) + list(ops), "note": f"exhaustive (regeneration_rate > 0) depth {k}"})
+        # quantities beyond the range of a C double: store 0 huge throughout, store 1 a tiny capacity with a huge credit line,
+        # store 2 a tiny capacity with a huge NADH reserve (quotients debt/capacity and current/capacity beyond 2**1024)
+        H, P = H310, P1030
+        hcfg = [f"new {H} {H} 0 {H} 0 1", f"new 1 0 0 {P} 1 2", f"new 1 0 {H} 0 0 1"]
+        halpha = [f"consume 0 {H} atp 0 10", f"consume 0 {H // 10} atp 1 10", f"consume 0 {H + H // 10} atp 1 10",
+                  f"consume 0 {H // 10} nadh 1 10", f"consume 0 {H + H // 3} gtp 1 10", "regen 0 5 atp", "wake 0", "interest 0",
+                  "transfer 0 1 7 atp", f"consume 1 {P // 8 + 1} atp 1 10", "interest 1", "regen 1 3 atp",
+                  f"consume 2 {10 * H} atp 0 10", "consume 2 1 atp 0 10", "convert 2 3"]
+        hcases = []
+        for k in range(1, depth):
+            for ops in itertools.product(halpha, repeat=k):
+                hcases.append({"lines": hcfg + list(ops), "note": f"exhaustive (beyond the float range) depth {k}"})
+        # overlapping calls: every ordered pair of calls from a 13-call alphabet x preemption before A's 1st / 2nd lock
+        # acquisition, on a colony with room in the peer (drained first) - with and without a credit line
+        racecfgs = [["new 10 10 10 0 1 10", "new 10 10 10 0 1 10", "consume 1 10 atp 0 10", "consume 1 10 gtp 0 10",
+                     "consume 1 10 nadh 0 10"],
+                    ["new 100 0 0 50 1 10", "new 20 0 0 40 1 10", "consume 1 30 atp 1 10"]]
+        ralpha2 = ["consume 0 10 atp 0 10", "consume 0 6 atp 1 10", "consume 0 120 atp 1 10", "transfer 0 1 10 atp", "transfer 0 1 6 atp",
+                   "transfer 1 0 5 atp", "transfer 0 1 10 gtp", "transfer 0 1 10 nadh", "consume 0 10 gtp 0 10",
+                   "consume 0 10 nadh 0 10", "regen 0 30 atp", "regen 1 30 atp", "convert 0 5"]
+        race_cases = []
+        for cfg in racecfgs:
+            for a_, b_ in itertools.product(ralpha2, repeat=2):
+                for k in (1, 2):
+                    if k == 2 and not a_.startswith("transfer"):
+                        continue
+                    race_cases.append({"lines": cfg + [f"race {k} {a_} / {b_}"], "note": "overlapping calls"})
+                    if tier != "quick":
+                        race_cases.append({"lines": cfg + [f"race {k} {a_} / {b_}", "consume 0 1 atp 1 10", "regen 0 200 atp"],
+                                           "note": "overlapping calls, then the history goes on"})
         return [{"name": f"all histories of <= {depth} ops over a 13-op alphabet on 3 two-store configurations",
                  "cases": cases},
+                {"name": f"all histories of <= {depth - 1} ops over a 15-op alphabet on a colony whose budgets / reserves / debt "
+                         "limits lie beyond the range of a C double (10^310, 2^1030)", "cases": hcases},
+                {"name": "all ordered pairs of overlapping calls over a 13-call alphabet x preemption before the 1st / 2nd lock "
+                         "acquisition of the first call, on 2 colonies", "cases": race_cases},
                 {"name": f"all histories of <= {depth} ops over a 12-op alphabet (ticks, zero amounts) on 2 configurations with "
                          "regeneration_rate > 0", "cases": rcases},
                 {"name": f"9 observer scripts x all histories of <= {depth - 1} ops over a 10-op alphabet on 3 configurations",
@@ -408,12 +530,21 @@ class C04(Prop):
                 {"name": "two long fixed histories (transaction-log cap, paying loop)", "cases": long_cases}]
 
     # --- implementation -----------------------------------------------------------------------------------
+    @staticmethod
+    def _ntx(s):
+        """length of the audit log through the public API (get_report computes float rates besides; a store whose quantities
+        lie beyond the float range is read through get_transactions - the log is capped at 1000 entries)"""
+        try:
+            return s.get_report().transactions_count
+        except OverflowError:
+            return len(s.get_transactions(10 ** 6))
+
     def _show_store(self, s):
         st = s.get_statistics()
         return " ".join(str(x) for x in [
             s.get_balance(self.m.EnergyType.ATP), s.get_balance(self.m.EnergyType.GTP),
             s.get_balance(self.m.EnergyType.NADH), s.get_debt(), st["total_consumed"], st["total_regenerated"],
-            st["operations_count"], st["failed_operations"], s.get_report().transactions_count, s.get_state().value,
+            st["operations_count"], st["failed_operations"], self._ntx(s), s.get_state().value,
             st["max_atp"], st["max_gtp"], st["max_nadh"]])
 
     @staticmethod
@@ -447,6 +578,11 @@ class C04(Prop):
                     or (len(r) == 2 and r[0] == "always" and _isnat(r[1])))
         if t[0] == "loud":
             return len(t) == 3 and _isnat(t[1]) and t[2] in CONSOLES
+        if t[0] == "race":
+            if len(t) < 5 or not _isnat(t[1]) or int(t[1]) == 0 or t.count("/") != 1:
+                return False
+            k = t.index("/")
+            return all(x and x[0] in RACE_CALLS and self._wellformed(x) for x in (t[2:k], t[k + 1:]))
         if t[0] == "label":
             return len(t) == 2 and (t[1] == "-" or all(x and all(c in "0123456789abcdef" for c in x) and int(x, 16) < 0x110000
                                                        for x in t[1].split(".")))
@@ -501,6 +637,18 @@ class C04(Prop):
                     stores[i].on_state_change = None if t[2] == "none" else _Observer(i, t[2:], cblog)
                     obs.append("ok")
                 continue
+            if t[0] == "race":
+                del cblog[:]
+                k_ = t.index("/")
+                ta, tb = t[2:k_], t[k_ + 1:]
+                ids = [int(x[1]) for x in (ta, tb)] + [int(x[2]) for x in (ta, tb) if x[0] == "transfer"]
+                if any(i >= len(stores) for i in ids):
+                    obs.append("no-such-store")
+                    continue
+                ra, rb = self._race(stores, int(t[1]), " ".join(ta), " ".join(tb))
+                extra[idx] = [EXC[c[2]].__name__ if c[2] < len(EXC) else "Exception" for c in cblog if c[2] is not None]
+                obs.append(f"{ra} {rb}" + "".join(" | " + self._show_store(s_) for s_ in stores))
+                continue
             del cblog[:]
             ids = [int(t[1])] + ([int(t[2])] if t[0] == "transfer" else [])
             if any(i >= len(stores) for i in ids):
@@ -526,6 +674,76 @@ class C04(Prop):
             obs.append(ret + "".join(" | " + self._show_store(stores[i]) for i in ids)
                        + " | cb [" + ",".join(f"{c[0]}:{c[1]}" for c in cblog) + "]")
         return obs, extra
+
+    def _race(self, stores, k, a_line, b_line):
+        """Run call A in this thread; just before its k-th acquisition of a lock of any store, call B runs to completion in a
+        thread of its own (started and joined: B wins the race for the lock).  If A never makes a k-th acquisition, B runs after
+        A has returned.  A B that cannot finish while A is parked (A holds what B needs) is reported as `deadlock`."""
+        lock_types = (type(threading.Lock()), type(threading.RLock()))
+        st = {"n": 0, "fired": False, "rb": None, "thread": None}
+        me = threading.get_ident()
+
+        def run_b():
+            try:
+                r, _ = self._apply(stores, b_line)
+                st["rb"] = self._show_ret(r)
+            except Exception as e:  # noqa
+                st["rb"] = f"raise:{type(e).__name__}"
+
+        def fire():
+            st["fired"] = True
+            th = threading.Thread(target=run_b, daemon=True)
+            st["thread"] = th
+            th.start()
+            th.join(3)
+            if th.is_alive():
+                st["rb"] = "deadlock"
+
+        class Hook:
+            def __init__(h, real):
+                h.real = real
+
+            def acquire(h, *a, **kw):
+                if not st["fired"] and threading.get_ident() == me:
+                    st["n"] += 1
+                    if st["n"] == k:
+                        fire()
+                return h.real.acquire(*a, **kw)
+
+            def release(h):
+                return h.real.release()
+
+            def locked(h):
+                return h.real.locked()
+
+            def __enter__(h):
+                h.acquire()
+                return h
+
+            def __exit__(h, *exc):
+                h.release()
+                return False
+
+        swapped = []
+        for s_ in stores:
+            for name, v in list(vars(s_).items()):
+                if isinstance(v, lock_types):
+                    setattr(s_, name, Hook(v))
+                    swapped.append((s_, name, v))
+        try:
+            try:
+                r, _ = self._apply(stores, a_line)
+                ra = self._show_ret(r)
+            except Exception as e:  # noqa
+                ra = f"raise:{type(e).__name__}"
+            if not st["fired"]:
+                fire()
+            elif st["thread"] is not None and st["thread"].is_alive():
+                st["thread"].join(3)
+        finally:
+            for s_, name, v in swapped:
+                setattr(s_, name, v)
+        return ra, st["rb"]
 
     # --- oracle: the property text evaluated on what the real code did ---------------------------------------
     def oracle(self, case, obs, extra):
@@ -556,6 +774,58 @@ class C04(Prop):
                             "rate": Fraction(int(t[7]), int(t[8])) if t[0] == "newr" else Fraction(0)})
                 prev.append((a, g, n, 0, 0))
                 init_total += a + g + n + md
+                continue
+            if t[0] == "race":
+                # two overlapping calls.  The text, on the pair: no call raises or hangs; every balance stays >= 0 and debt within
+                # its limit; the spends that report success are charged (nothing is created: what the colony holds plus what was
+                # successfully spent never exceeds what it held plus what was regenerated; without regeneration and transfers
+                # exactly the successful costs are removed); the audit counters count exactly the successful spends
+                parts = [x.strip() for x in o.split("|")]
+                rets = parts[0].split()
+                k_ = t.index("/")
+                calls = list(zip((t[2:k_], t[k_ + 1:]), rets))
+                try:
+                    now_all = [parse_store(x) for x in parts[1:]]
+                except ValueError:
+                    out.append(Violation("observations_are_integers", "integer balances", o[:200], idx))
+                    break
+                by_obs = (extra[idx] or []) if extra else []
+                for c_, r_ in calls:
+                    if r_ == "deadlock":
+                        out.append(Violation("overlapping_calls_finish", "both calls return", " ".join(c_) + " did not finish", idx))
+                    elif r_.startswith("raise:") and r_[6:] not in by_obs:
+                        out.append(Violation("no_operation_raises", "a normal return", f"{' '.join(c_)}: {r_}", idx))
+                for i, p_ in enumerate(now_all):
+                    if min(p_[0], p_[1], p_[2]) < 0 or p_[3] < 0:
+                        out.append(Violation("balances_and_debt_nonnegative", ">= 0", f"store {i}: {p_}", idx))
+                ledger = not any(c_[0] in ("interest", "rst") for c_, _ in calls) and not any(r_.startswith(("raise", "dead")) for _, r_ in calls)
+                for c_, _ in calls:
+                    if c_[0] == "interest" and len(now_all) == len(prev):
+                        j = int(c_[1])
+                        cfg[j]["accrued"] += max(0, now_all[j][3] - prev[j][3])
+                for i, p_ in enumerate(now_all):
+                    if i < len(cfg) and p_[3] > cfg[i]["max_debt"] + cfg[i]["accrued"]:
+                        out.append(Violation("debt_within_limit", f"debt <= {cfg[i]['max_debt']} + interest {cfg[i]['accrued']}",
+                                             f"store {i}: debt {p_[3]}", idx))
+                succ = sum(int(c_[2]) for c_, r_ in calls if c_[0] == "consume" and r_ == "1")
+                infl = sum(int(c_[2]) for c_, _ in calls if c_[0] == "regen")
+                if ledger and len(now_all) == len(prev):
+                    wb, wn = sum(worth(x) for x in prev), sum(worth(x) for x in now_all)
+                    if wn + succ > wb + infl:
+                        out.append(Violation("overlapping_calls_create_nothing",
+                                             f"holdings + successful spends <= {wb} held + {infl} regenerated",
+                                             f"holdings {wn} + spends {succ}: {prev} -> {now_all}", idx))
+                    if all(c_[0] in ("consume", "convert", "dorm", "wake") for c_, _ in calls) and wb - wn != succ:
+                        out.append(Violation("success_charges_exactly", f"net worth reduced by {succ}",
+                                             f"reduced by {wb - wn}: {prev} -> {now_all}", idx))
+                    cb_, cn_ = sum(x[4] for x in prev), sum(x[4] for x in now_all)
+                    if cn_ - cb_ != succ:
+                        out.append(Violation("audit_counter_exact", f"total_consumed grows by {succ}", str(cn_ - cb_), idx))
+                spent += succ
+                if any(c_[0] in INFLOW for c_, _ in calls):
+                    inflow = True
+                if len(now_all) == len(prev):
+                    prev[:] = now_all
                 continue
             parts = [x.strip() for x in o.split("|")]
             ret = parts[0]
